@@ -15,8 +15,10 @@ All(tr) == 1..Len(Fields(tr))
 \* quick: the mandatory settings, plus each optional one, minus each mandatory one, all, none
 Q_Subs(tr) == {Req(tr), All(tr), {}} \cup {Req(tr) \cup {i} : i \in All(tr)}
               \cup {Req(tr) \ {i} : i \in Req(tr)} \cup {All(tr) \ {i} : i \in All(tr)}
-\* thorough: every subset of the transport's settings (16 + 8 + 1024)
+\* thorough: additionally every subset of the transport's settings (16 + 8 + 1024)
+\* in the scanners' own notation and in the mixed one
 T_Subs(tr) == SUBSET All(tr)
+NoSubs(tr) == {}
 \* small: liveness / negative controls
 S_Subs(tr) == {Req(tr), All(tr)}
 =============================================================================
